@@ -19,6 +19,20 @@ META = {
 }
 
 
+def _first_arg(fn, call):
+    """text of the first argument of `call`; a local that is bound exactly once in fn stands for the expression it was bound to
+    (nothing in update_avps changes `avps` between the binding and the call: the dict is only read)"""
+    if not call.args:
+        return None
+    a = call.args[0]
+    if isinstance(a, ast.Name):
+        defs = [s_.value for s_ in ast.walk(fn) if isinstance(s_, ast.Assign) and len(s_.targets) == 1
+                and isinstance(s_.targets[0], ast.Name) and s_.targets[0].id == a.id]
+        if len(defs) == 1:
+            return ast.unparse(defs[0])
+    return ast.unparse(a)
+
+
 def check(ctx):
     repo = ctx.repo
     m = ctx.need(repo.mods.get("bromelia._internal_utils"), "module bromelia._internal_utils")
@@ -215,7 +229,7 @@ def check(ctx):
         has_sid = facts.get("'session_id' in avps.keys()", facts.get("'session_id' in avps"))
         has_oh = facts.get("'origin_host' in avps.keys()", facts.get("'origin_host' in avps"))
         ok = facts.get("self.has_avp('session_id_avp')") is True and has_sid is False and has_oh is True and \
-            ast.unparse(g[0].args[0]) == "avps['origin_host']"
+            _first_arg(ua, g[0]) == "avps['origin_host']"
         if not ok:
             break
     # ... and exactly then: with the three conditions true no path may skip the regeneration
